@@ -44,8 +44,16 @@ func (e *Exec) specOf(fn *ssa.Function) *FuncSpec {
 	return nil
 }
 
+// specOrDefault: written contract, or the default std-lib frame.
+func (e *Exec) specOrDefault(fn *ssa.Function) *FuncSpec {
+	if s := e.specOf(fn); s != nil {
+		return s
+	}
+	return e.defaultStdSpec(fn)
+}
+
 func (e *Exec) writeSetOnce(fn *ssa.Function, ws map[string]bool) {
-	spec := e.specOf(fn)
+	spec := e.specOrDefault(fn)
 	if spec != nil && (spec.Extern || fn.Blocks == nil || spec.Trusted) {
 		e.specWrites(fn, spec, ws)
 		return
@@ -244,6 +252,10 @@ func (e *Exec) callWrites(c *ssa.CallCommon, ws map[string]bool) {
 	callee := c.StaticCallee()
 	if callee == nil {
 		if fs := e.funcValueSpec(c); fs != nil {
+			e.specWrites(nil, fs, ws)
+			return
+		}
+		if fs := e.funcTypeSpec(c); fs != nil {
 			e.specWrites(nil, fs, ws)
 			return
 		}
@@ -606,6 +618,11 @@ func (e *Exec) packResults(rs []Val, rt types.Type) Val {
 
 func (e *Exec) callWith(fr *frame, st *State, c *ssa.CallCommon, fv Val, args []Val, rt types.Type, pos token.Pos, how string) Val {
 	sig := c.Signature()
+	e.curCallFrame = fr
+	e.curCallArg0 = nil
+	if len(c.Args) > 0 {
+		e.curCallArg0 = c.Args[0]
+	}
 	if c.IsInvoke() {
 		spec := e.invokeSpec(c)
 		if spec != nil {
@@ -639,7 +656,11 @@ func (e *Exec) callWith(fr *frame, st *State, c *ssa.CallCommon, fv Val, args []
 		if fv.T != "" && fv.Bad == "" {
 			e.oblige(fr, st, "nilfunc", "call of a nil function value", pos, not(eq(fv.T, "0")))
 		}
-		if fs := e.funcValueSpec(c); fs != nil {
+		fs := e.funcValueSpec(c)
+		if fs == nil {
+			fs = e.funcTypeSpec(c)
+		}
+		if fs != nil {
 			names := []string{}
 			for i := 0; i < sig.Params().Len(); i++ {
 				n := sig.Params().At(i).Name()
@@ -658,6 +679,11 @@ func (e *Exec) callWith(fr *frame, st *State, c *ssa.CallCommon, fv Val, args []
 	}
 	spec := e.specOf(callee)
 	key := funcKey(callee)
+	if spec == nil {
+		if ds := e.defaultStdSpec(callee); ds != nil {
+			spec = ds
+		}
+	}
 	if spec == nil {
 		if callee.Parent() != nil && callee.Blocks != nil && e.inRepo(callee) && e.closureInlinable(callee) {
 			// local closures without a contract are inlined
@@ -978,6 +1004,23 @@ func (e *Exec) contractCall(fr *frame, st *State, callee *ssa.Function, spec *Fu
 		o := e.oblige(fr, st, "pre:"+short, "precondition of "+key+": "+c.Src, pos, v.T)
 		_ = o
 	}
+	// extra call-site requirements of the caller's contract (lock discipline)
+	if e.spec != nil && callee != nil {
+		for _, c := range e.topFrame.spec.CallReqs[callee.Name()] {
+			cenv := e.specEnv(e.topFrame, st, nil)
+			for k, v := range e.topFrame.entryParams {
+				if _, isLocal := e.topFrame.locals[k]; !isLocal {
+					cenv.vars[k] = v
+				}
+			}
+			v := cenv.eval(c.E)
+			e.oblige(fr, st, "lock:call:"+callee.Name(), "call of "+callee.Name()+" requires "+c.Src, pos, v.T)
+		}
+	}
+	// lock invariant: checked when the lock is released
+	if callee != nil {
+		e.lockInvariant(fr, st, callee, args, false, pos)
+	}
 	pre := st.clone()
 	// effects
 	var mods []heapLoc
@@ -1090,6 +1133,23 @@ func (e *Exec) contractCall(fr *frame, st *State, callee *ssa.Function, spec *Fu
 	}
 	if spec.Extern || spec.Trusted || callee == nil || callee.Blocks == nil {
 		e.trust("contract of " + key + " (" + spec.Line + ") is assumed, not verified")
+	}
+	if callee != nil {
+		// lock invariant: available after the lock is acquired
+		e.lockInvariant(fr, st, callee, args, true, pos)
+		if key == "sync.(*WaitGroup).Wait" && e.spec != nil {
+			for _, c := range e.topFrame.spec.AfterWait {
+				cenv := e.specEnv(e.topFrame, st, nil)
+				for k, v := range e.topFrame.entryParams {
+					if _, isLocal := e.topFrame.locals[k]; !isLocal {
+						cenv.vars[k] = v
+					}
+				}
+				v := cenv.eval(c.E)
+				e.ctx.assume(imp(st.pc, v.T))
+				e.trust("fork/join: after sync.WaitGroup.Wait in " + e.key + " it is assumed that " + c.Src + " (established by the spawned goroutines, each of which maintains it under the lock)")
+			}
+		}
 	}
 	return e.packResults(res, rt)
 }
@@ -1277,4 +1337,129 @@ func sortedAllocs(m map[*ssa.Alloc]bool) []*ssa.Alloc {
 		return out[i].Name() < out[j].Name()
 	})
 	return out
+}
+
+// funcTypeSpec finds a contract for calls of values of a named function type:
+// key "<pkg>.typefunc <TypeName>".
+func (e *Exec) funcTypeSpec(c *ssa.CallCommon) *FuncSpec {
+	n, ok := c.Value.Type().(*types.Named)
+	if !ok {
+		return nil
+	}
+	if _, isSig := n.Underlying().(*types.Signature); !isSig || n.Obj().Pkg() == nil {
+		return nil
+	}
+	if s, ok := e.ss.Funcs[n.Obj().Pkg().Path()+".typefunc "+n.Obj().Name()]; ok {
+		return s
+	}
+	return nil
+}
+
+// lockInvariant implements `lockinv Type.field = fn`: fn(owner) may be assumed
+// right after Lock/RLock on owner.field and must hold right before Unlock.
+func (e *Exec) lockInvariant(fr *frame, st *State, callee *ssa.Function, args []Val, after bool, pos token.Pos) {
+	key := funcKey(callee)
+	acquire := key == "sync.(*Mutex).Lock" || key == "sync.(*RWMutex).Lock" || key == "sync.(*RWMutex).RLock"
+	release := key == "sync.(*Mutex).Unlock" || key == "sync.(*RWMutex).Unlock"
+	if !(acquire && after) && !(release && !after) {
+		return
+	}
+	if len(args) == 0 || len(e.ss.LockInvs) == 0 {
+		return
+	}
+	ownerT, fld, ownerV, ok := e.mutexOwner(fr, e.curCallArg0)
+	if !ok {
+		return
+	}
+	name := pkgPathOf(ownerT) + "." + typeShortName(ownerT) + "." + fld
+	fn, ok := e.ss.LockInvs[name]
+	if !ok {
+		return
+	}
+	sf, ok := e.ss.SpecFns[fn]
+	if !ok {
+		e.specErrors = append(e.specErrors, "lockinv refers to unknown spec function "+fn)
+		return
+	}
+	env := e.specEnv(e.topFrame, st, nil)
+	ov := ownerV
+	ov.GoT = types.NewPointer(ownerT)
+	env.vars["lk$owner"] = ov
+	v := env.specCall(sf, ECall{Fn: fn, Args: []Expr{EIdent{"lk$owner"}}})
+	if after {
+		e.ctx.assume(imp(st.pc, v.T))
+		e.trust("lock invariant " + fn + " of " + name + " is assumed on acquisition (it is checked at every release)")
+	} else {
+		e.oblige(fr, st, "lockinv:"+typeShortName(ownerT)+"."+fld, "lock invariant "+fn+" holds when "+name+" is released", pos, v.T)
+	}
+}
+
+// mutexOwner recognises &owner.field as the address of a mutex.
+func (e *Exec) mutexOwner(fr *frame, v ssa.Value) (types.Type, string, Val, bool) {
+	fa, ok := v.(*ssa.FieldAddr)
+	if !ok {
+		return nil, "", Val{}, false
+	}
+	pt := fa.X.Type().Underlying().(*types.Pointer).Elem()
+	st := pt.Underlying().(*types.Struct)
+	ov := e.val(e.curCallFrame, fa.X)
+	if ov.T == "" {
+		return nil, "", Val{}, false
+	}
+	return pt, st.Field(fa.Field).Name(), ov, true
+}
+
+// defaultStdSpec: a standard-library function without a written contract is
+// given the default frame "writes only memory directly reachable from its
+// pointer, slice and map arguments" (and returns arbitrary values), provided
+// it takes no interface or function arguments through which it could reach
+// other memory. The assumption is listed in the evidence for each use.
+func (e *Exec) defaultStdSpec(fn *ssa.Function) *FuncSpec {
+	if fn == nil || e.inRepo(fn) {
+		return nil
+	}
+	pkg := ""
+	if fn.Pkg != nil {
+		pkg = fn.Pkg.Pkg.Path()
+	} else if fn.Object() != nil && fn.Object().Pkg() != nil {
+		pkg = fn.Object().Pkg().Path()
+	}
+	first := pkg
+	if k := strings.Index(pkg, "/"); k >= 0 {
+		first = pkg[:k]
+	}
+	if pkg == "" || strings.Contains(first, ".") || pkg == "sort" || pkg == "sync" || pkg == "container/heap" || pkg == "unsafe" || pkg == "reflect" {
+		return nil
+	}
+	key := funcKey(fn)
+	if s, ok := e.defaultSpecs[key]; ok {
+		return s
+	}
+	spec := &FuncSpec{Target: key, Extern: true, HasMod: true, Loops: map[int][]*Clause{}, LoopMods: map[int][]*Clause{}, Skip: map[string]bool{},
+		Unroll: map[int]int{}, Line: "default std-lib frame"}
+	mc := &Clause{Kind: "modifies", Src: "default", Line: "default std-lib frame"}
+	names := paramNames(fn, fn.Signature)
+	for i, p := range fn.Params {
+		if i >= len(names) {
+			break
+		}
+		switch u := p.Type().Underlying().(type) {
+		case *types.Interface, *types.Signature, *types.Chan:
+			e.defaultSpecs[key] = nil
+			return nil
+		case *types.Pointer:
+			if isStruct(u.Elem()) {
+				mc.Locs = append(mc.Locs, ECall{Fn: "fields", Args: []Expr{EIdent{names[i]}}})
+			} else {
+				mc.Locs = append(mc.Locs, ECall{Fn: "box", Args: []Expr{EIdent{names[i]}}})
+			}
+		case *types.Slice:
+			mc.Locs = append(mc.Locs, ECall{Fn: "elems", Args: []Expr{EIdent{names[i]}}})
+		case *types.Map:
+			mc.Locs = append(mc.Locs, ECall{Fn: "entries", Args: []Expr{EIdent{names[i]}}})
+		}
+	}
+	spec.Modifies = []*Clause{mc}
+	e.defaultSpecs[key] = spec
+	return spec
 }
